@@ -225,10 +225,13 @@ def _process_repeated_resources(
         assert resource_name in child_resources
         assert backend.serialize(resource.value) == f"{children[0].name}.{resource.name}"
     for resource in child_resources.values():
+        # Refer to the child's resource by its symbol: the caller substitutes the child's compiled value
+        # for it together with the routine's own parameters, so that value is not substituted into twice.
+        child_resource = backend.as_expression(f"{children[0].name}.{resource.name}")
         if resource.type == "additive":
-            new_value = repetition.sequence_sum(resource.value, backend)
+            new_value = repetition.sequence_sum(child_resource, backend)
         elif resource.type == "multiplicative":
-            new_value = repetition.sequence_prod(resource.value, backend)
+            new_value = repetition.sequence_prod(child_resource, backend)
         elif resource.type == "qubits" and repetition.sequence.type == "constant":
             # NOTE: Actually this could also be `new_value = resource.value`.
             # The reason it's not, is that in such case local_ancillae are counted twice
